@@ -35,6 +35,8 @@ RULE = ('cases: synthetic file sets (rwms 1.4/1.6/2.0, ms.dat energy density + t
         'selections as tuple / ndarray / numpy ints (undocumented forms: an exception is telemetry, a result is judged), a prefix-sharing complete '
         'neighbour set in the same directory, postfix look-alikes, r_start == r_stop, r_step beyond the length, single-record files, files / names / '
         'configurations listed twice, all numbers scaled by 1e-300 ... 1e300 with signed zeros, reweighting exponents near overflow; '
+        'second pass: an options kind forcing every option and rejection row onto three-replica long-chain sets, spectator numbers poisoned with nan / inf, '
+        'equal-summary selections with other members, 12 replicas / > 255 configurations, counters judged:<format>:<selection> per judgement; '
         'a file set is non-trivial when at least one read returned and every number of it was compared and the set has replicas or '
         'configurations with different digit counts; distinct = digest of (format, parameters, table)')
 ASSUMPTIONS = ['writers are validated byte-for-byte against the sample files under tests/data (openQCD 1.4 derived from the 1.6 sample, '
@@ -296,7 +298,7 @@ def gen_reps(rng, nrep=None):
 
 def n_cfg(rng, tier, small=False):
     if small:
-        return int(rng.integers(5, 8))
+        return int(rng.integers(6, 10))
     if FORCE['min_cfg']:
         return FORCE['min_cfg'] + int(rng.integers(0, 8))
     if tier == 'quick':
@@ -672,6 +674,8 @@ class MsdatSet:
         if dtr:
             spacing = int(rng.choice([2, 3]))
             self.dtr_read = spacing
+        elif FORCE['all_bad'] and rng.random() < 0.6:
+            spacing = int(rng.choice([1, 2, 4]))     # all replicas with the same spacing: the `steps` option applies
         for r in self.reps:
             n = n_cfg(rng, tier, small)
             if flow_fit:
@@ -2156,6 +2160,20 @@ def case_history(ctx, rng, fmt):
         ctx.sample({'format': fmt, 'class': 'history', 'sequence': [x[0] for x in seq], 'twins_share': 'file names, replicas, configurations, shapes'})
 
 
+def equal_summary_pair(rng, cfgs):
+    """Checklist 10: two selections per replica with the same length, first and last configuration and different interior
+    members, to be read one after the other.  Empty when a chain is too short."""
+    if any(len(c) < 7 for c in cfgs.values()):
+        return []
+    a, b = {}, {}
+    for r, c in cfgs.items():
+        inner = list(c[1:-1])
+        i, j = (int(x) for x in rng.choice(len(inner), size=2, replace=False))
+        a[r] = [c[0]] + [x for k_, x in enumerate(inner) if k_ != i] + [c[-1]]
+        b[r] = [c[0]] + [x for k_, x in enumerate(inner) if k_ != j] + [c[-1]]
+    return [a, b]
+
+
 def soft(ctx, fmt, sel, io, call, exp, what, ekw=None):
     """An input representation the documentation does not list: an exception is recorded as telemetry, a returned
     result is judged exactly like any other."""
@@ -2184,7 +2202,12 @@ def hard(ctx, rng, fmt, sel, io, call, exp, what, ekw=None, k=2):
 
 def case_hard(ctx, rng, fmt):
     """Checklist 1 (representations), 8 (name traps), 9 (boundary selections), 4 (the same thing twice)."""
-    S = make_set(fmt, rng, ctx.tier)
+    s1 = int(rng.integers(1, 2 ** 31))
+    FORCE.update(min_cfg=10 if rng.random() < 0.7 else 0)
+    try:
+        S = make_set(fmt, np.random.default_rng(s1), ctx.tier)
+    finally:
+        FORCE.update(min_cfg=0)
     io = IO(fmt, S, rng)
     with tempfile.TemporaryDirectory(prefix='vmon_C17_', dir=TMPROOT) as root:
         d = os.path.join(root, 'meas')
@@ -2211,10 +2234,13 @@ def case_hard(ctx, rng, fmt):
                  full, base_what)
         # ---- 8: a second, complete file set whose names share our prefix lives in the same directory
         if fmt != 'hadrons':
-            T = make_set(fmt, np.random.default_rng(int(rng.integers(1, 2 ** 31))), ctx.tier)
+            # same structure as ours (same generator seed), other numbers
+            FORCE.update(min_cfg=10 if min(len(x) for x in (getattr(S, 'traj', None) or S.cfgs).values()) >= 10 else 0)
+            try:
+                T = make_set(fmt, np.random.default_rng(s1), ctx.tier, data_rng=np.random.default_rng(int(rng.integers(1, 2 ** 31))))
+            finally:
+                FORCE.update(min_cfg=0)
             T.prefix = S.prefix + 'B'
-            if hasattr(T, 'postfix'):
-                T.postfix, T.version, T.nrw, T.nfct, T.nsrc = S.postfix, S.version, S.nrw, S.nfct, S.nsrc
             try:
                 T.write(d, distractors=False)
                 trap_ok = True
@@ -2283,6 +2309,9 @@ def case_hard(ctx, rng, fmt):
             nn = ['lbl|r%d' % r for r in S.reps]
             soft(ctx, fmt, 'names-as-tuple', io, lambda: io.read(d, names=tuple(nn)), io.expect(names=nn), base_what)
             hard(ctx, rng, fmt, 'idl-exactly-all', io, lambda: io.read(d, idl=[list(S.cfgs[r]) for r in lex]), full, base_what)
+            for pair in equal_summary_pair(rng, {r: S.cfgs[r] for r in S.reps}):
+                hard(ctx, rng, fmt, 'idl-equal-summary-other-members', io, lambda pair=pair: io.read(d, idl=[list(pair[r]) for r in lex]),
+                     io.expect(idl=pair), base_what, ekw={'idl': pair})
             hard(ctx, rng, fmt, 'idl-single-configuration', io, lambda: io.read(d, idl=[[S.cfgs[r][0]] for r in lex]), None, base_what)
             hard(ctx, rng, fmt, 'idl-first-and-last-only', io, lambda: io.read(d, idl=[[S.cfgs[r][0], S.cfgs[r][-1]] for r in lex]), None, base_what)
             hard(ctx, rng, fmt, 'file-listed-twice', io, lambda: io.read(d, files=[S.fname(S.reps[0])] * 2), None, base_what)
@@ -2295,6 +2324,9 @@ def case_hard(ctx, rng, fmt):
                 soft(ctx, fmt, 'replica-as-tuple', io, lambda: io.read(d, replica=tuple(S.rdir(r) for r in S.reps)), full, base_what)
                 allf = [[S.cfile(r, c) for c in S.cfgs[r]] for r in S.reps]
                 hard(ctx, rng, fmt, 'files-exactly-all', io, lambda: io.read(d, files=[list(x) for x in allf]), full, base_what)
+                for pair in equal_summary_pair(rng, {r: S.cfgs[r] for r in S.reps}):
+                    hard(ctx, rng, fmt, 'files-equal-summary-other-members', io,
+                         lambda pair=pair: io.read(d, files=[[S.cfile(r, c_) for c_ in pair[r]] for r in S.reps]), io.expect(cfgs=pair), base_what, ekw={'cfgs': pair})
                 soft(ctx, fmt, 'files-as-tuples', io, lambda: io.read(d, files=[tuple(x) for x in allf]), full, base_what)
                 hard(ctx, rng, fmt, 'files-single-configuration', io, lambda: io.read(d, files=[[x[0]] for x in allf]), None, base_what)
                 hard(ctx, rng, fmt, 'configuration-listed-twice', io, lambda: io.read(d, files=[list(x) + [x[0]] for x in allf]), None, base_what)
@@ -2313,6 +2345,9 @@ def case_hard(ctx, rng, fmt):
                 rg = range(pick[0], pick[-1] + 1, pick[1] - pick[0])
                 hard(ctx, rng, fmt, 'idl-as-range', io, lambda: io.read(d, idl=rg), e, base_what, ekw={'idl': pick})
             hard(ctx, rng, fmt, 'idl-exactly-all', io, lambda: io.read(d, idl=list(c)), full, base_what)
+            for pair in equal_summary_pair(rng, {0: c}):
+                hard(ctx, rng, fmt, 'idl-equal-summary-other-members', io, lambda pair=pair: io.read(d, idl=list(pair[0])), io.expect(idl=pair[0]), base_what,
+                     ekw={'idl': pair[0]})
             hard(ctx, rng, fmt, 'idl-single-configuration', io, lambda: io.read(d, idl=[c[0]]), None, base_what)
             hard(ctx, rng, fmt, 'idl-configuration-twice', io, lambda: io.read(d, idl=list(c) + [c[0]]), None, base_what)
             # idl selecting nothing: the reader treats an empty selection like "no selection" (falsy) - undocumented, observed
@@ -2401,7 +2436,7 @@ def case_options(ctx, rng, which):
         FORCE.update(min_cfg=0, nrep=None, all_bad=False)
 
 
-OPTION_KINDS = ['rwms-1.4', 'rwms-1.6', 'rwms-2.0', 'msdat_energy', 'msdat_qtop', 'gfms', 'ms5', 'sfcf_o', 'sfcf_c', 'sfcf_a', 'hadrons']
+OPTION_KINDS = ['rwms-1.4', 'rwms-1.6', 'rwms-2.0', 'msdat_energy', 'msdat_qtop', 'gfms', 'ms5', 'sfcf_o', 'sfcf_c', 'sfcf_a', 'hadrons', 'hadrons', 'msdat_qtop']
 
 
 def poison(S, fmt, io):
@@ -2487,10 +2522,10 @@ def case_spectators(ctx, rng, fmt):
         ctx.sample({'format': fmt, 'class': 'spectators poisoned with nan / inf / 1.7e308'})
 
 
-def case_many(ctx, rng, fmt):
+def case_many(ctx, rng, fmt, which=None):
     """Checklist 12 (beyond the quantifier's 1-3 replicas / 5-40 configurations, judged like everything else): 12 replicas
     r0..r11, one chain with more than 255 configurations, 12 time slices."""
-    which = str(rng.choice(['replicas', 'configurations']))
+    which = which or str(rng.choice(['replicas', 'configurations']))
     FORCE.update(min_cfg=260 if which == 'configurations' else 0)
     try:
         S = make_set(fmt, rng, ctx.tier)
@@ -2516,8 +2551,7 @@ def case_many(ctx, rng, fmt):
         n = hard(ctx, rng, fmt, 'many-' + which, io, lambda: io.read(d), e, {'format': fmt, 'class': 'many', 'which': which}, k=2)
         if n:
             ctx.nontrivial.add(digest('many', which, S.digest()))
-        ctx.sample({'format': fmt, 'class': 'many ' + which,
-                    'replicas': len(getattr(S, 'reps', [0])), 'longest_chain': max(len(x) for x in (getattr(S, 'traj', None) or getattr(S, 'cfgs') if isinstance(getattr(S, 'cfgs', None), dict) else {0: S.cfgs}).values())})
+        ctx.sample({'format': fmt, 'class': 'many ' + which, 'replicas': len(getattr(S, 'reps', [0]))})
 
 
 def plan(tier):
@@ -2525,11 +2559,20 @@ def plan(tier):
     h = len(HARD_FMTS)
     return [('rwms', 75 * m), ('msdat_energy', 40 * m), ('msdat_t0', 36 * m), ('msdat_qtop', 40 * m), ('gfms', 40 * m), ('ms5', 40 * m),
             ('sfcf_o', 32 * m), ('sfcf_c', 40 * m), ('sfcf_a', 40 * m), ('hadrons', 40 * m),
-            ('options', 18 * len(OPTION_KINDS) * m), ('history', 6 * h * m), ('hard', 26 * h * m), ('scale', 26 * h * m),
-            ('spectators', 26 * h * m), ('many', 2 * h * m)]
+            ('options', 14 * len(OPTION_KINDS) * m), ('history', 6 * h * m), ('hard', 18 * h * m), ('scale', 20 * h * m),
+            ('spectators', 20 * h * m), ('many', 2 * h * m)]
 
 
 def run_case(ctx, kind, idx, rng):
+    import time
+    t0 = time.time()
+    try:
+        _run_case(ctx, kind, idx, rng)
+    finally:
+        ctx.count('ms:' + kind, int(1000 * (time.time() - t0)))
+
+
+def _run_case(ctx, kind, idx, rng):
     if kind == 'rwms':
         case_rwms(ctx, rng, version=['1.4', '1.6', '2.0'][idx % 3])
     elif kind == 'msdat_energy':
@@ -2557,4 +2600,4 @@ def run_case(ctx, kind, idx, rng):
     elif kind == 'spectators':
         case_spectators(ctx, rng, HARD_FMTS[idx % len(HARD_FMTS)])
     elif kind == 'many':
-        case_many(ctx, rng, HARD_FMTS[idx % len(HARD_FMTS)])
+        case_many(ctx, rng, HARD_FMTS[idx % len(HARD_FMTS)], which=['replicas', 'configurations'][(idx // len(HARD_FMTS)) % 2])
